@@ -1574,3 +1574,30 @@ package spec
 //@   excluding nothing-invented @@ canonicalCodes(jv(data))
 //@   ensures  [C01] lossless @@ result != nil ==> sameObject(jv(result), jv(data))
 //@   excluding lossless @@ canonicalCodes(jv(data))
+
+// ---- SecurityScheme: one lemma, one case per flavour of the meta-schema (the required list differs)
+//@ define ssType(j smt:JV) string = decOf("string", oVal(j, "type"))
+//@ define ssFlow(j smt:JV) string = decOf("string", oVal(j, "flow"))
+//@ define ssKeys(j smt:JV) bool = (forall k string :: oCnt(j, k) > 0 ==> knownKey("SecuritySchemeProps", k) || isExtKey(k)) && (forall k string :: knownKey("SecuritySchemeProps", k) ==> !isExtKey(k))
+//@ func verifLemmaSecuritySchemeRoundTrip
+//@   property C01, C19
+//@   requires isObj(jv(data)) && noDuplicates(jv(data)) && nfExtensions(jv(data)) && ssKeys(jv(data))
+//@   ensures  [C01,C19] basic @@ result != nil && nfKind(jv(data), "SecuritySchemeProps", "basicAuthenticationSecurity") && requiredPresent(jv(data), "basicAuthenticationSecurity") && ssType(jv(data)) == "basic" ==> sameObject(jv(result), jv(data))
+//@   ensures  [C01,C19] apiKey @@ result != nil && nfKind(jv(data), "SecuritySchemeProps", "apiKeySecurity") && requiredPresent(jv(data), "apiKeySecurity") && ssType(jv(data)) == "apiKey" ==> sameObject(jv(result), jv(data))
+//@   excluding apiKey @@ nfKindAll(jv(data), "SecuritySchemeProps", "apiKeySecurity")
+//@   ensures  [C01,C19] oauth2-implicit @@ result != nil && nfKind(jv(data), "SecuritySchemeProps", "oauth2ImplicitSecurity") && requiredPresent(jv(data), "oauth2ImplicitSecurity") && ssType(jv(data)) == "oauth2" && ssFlow(jv(data)) == "implicit" ==> sameObject(jv(result), jv(data))
+//@   ensures  [C01,C19] oauth2-password @@ result != nil && nfKind(jv(data), "SecuritySchemeProps", "oauth2PasswordSecurity") && requiredPresent(jv(data), "oauth2PasswordSecurity") && ssType(jv(data)) == "oauth2" && ssFlow(jv(data)) == "password" ==> sameObject(jv(result), jv(data))
+//@   excluding oauth2-password @@ nfKindAll(jv(data), "SecuritySchemeProps", "oauth2PasswordSecurity")
+//@   ensures  [C01,C19] oauth2-application @@ result != nil && nfKind(jv(data), "SecuritySchemeProps", "oauth2ApplicationSecurity") && requiredPresent(jv(data), "oauth2ApplicationSecurity") && ssType(jv(data)) == "oauth2" && ssFlow(jv(data)) == "application" ==> sameObject(jv(result), jv(data))
+//@   excluding oauth2-application @@ nfKindAll(jv(data), "SecuritySchemeProps", "oauth2ApplicationSecurity")
+//@   ensures  [C01,C19] oauth2-accessCode @@ result != nil && nfKind(jv(data), "SecuritySchemeProps", "oauth2AccessCodeSecurity") && requiredPresent(jv(data), "oauth2AccessCodeSecurity") && ssType(jv(data)) == "oauth2" && ssFlow(jv(data)) == "accessCode" ==> sameObject(jv(result), jv(data))
+//@   excluding oauth2-accessCode @@ nfKindAll(jv(data), "SecuritySchemeProps", "oauth2AccessCodeSecurity")
+
+// ---- Operation
+//@ func verifLemmaOperationRoundTrip
+//@   property C01, C19
+//@   requires isObj(jv(data)) && noDuplicates(jv(data)) && nfExtensions(jv(data))
+//@   requires nfKind(jv(data), "OperationProps", "operation") && requiredPresent(jv(data), "operation")
+//@   requires (forall k string :: oCnt(jv(data), k) > 0 ==> knownKey("OperationProps", k) || isExtKey(k)) && (forall k string :: knownKey("OperationProps", k) ==> !isExtKey(k))
+//@   ensures  [C01] lossless @@ result != nil ==> sameObject(jv(result), jv(data))
+//@   ensures  [C19] required-kept @@ result != nil ==> requiredPresent(jv(result), "operation")
